@@ -104,7 +104,7 @@ func replay(run *report.Run, ms []*explore.Model) int {
 // defects repaired by a proposed patch and are still reported as VIOLATION.
 func classify(v *report.Violation) {
 	dist := strings.HasPrefix(v.Part, "dist[")
-	lease := dist && strings.HasPrefix(v.Config, "lease/")
+	lease := dist && strings.HasPrefix(v.Config, "lease")
 	switch {
 	// K1: lease mode never installs the recorded address: loadAllocations and
 	// handleRemoteChange call epochAllocator.Allocate(subscriber) (first free from the hint).
